@@ -48,7 +48,7 @@ Proof. exact cond_machine_correct. Qed.
 Theorem C07_inactive_is_inert : forall rec fs fname inc asm p line l,
   plain_ok l = true \/ inert_ok l = true ->
   sc_in_comment (c_scan (p_ctx p)) = false ->
-  replace_all (c_macros (p_ctx p)) l = l ->
+  replace_all_c (c_macros (p_ctx p)) l = l ->
   p_state p <> Active ->
   line_step rec fs fname inc asm p line l = POk p.
 Proof. exact inactive_is_inert. Qed.
